@@ -65,12 +65,16 @@ def point_cap(tier, quick=48, thorough=256):
 
 def model_case(rng, tier, opts=None):
     o = opts or recipes.Opts()
+    if rng.random() < 0.04:
+        return cc_case(rng)
     for _ in range(8):
         r = recipes.gen_model(rng, o)
         if recipes.refs_resolvable(r):
             r = recipes.strip(r)
             if rng.random() < 0.15:
                 recipes.apply_forms(r, rng)      # the same model written with other accepted argument forms
+            if rng.random() < 0.12:
+                sprinkle_cc(r, rng)              # the configurator's Any / Xor (with defaults) are propositions too
             return r
     return None
 
@@ -102,6 +106,7 @@ def varied_opts(rng, tier, **kw):
         o = recipes.Opts(depth=3, maxfan=4, nleaf=5)
     else:
         o = recipes.Opts(depth=rng.choice([4, 5]), maxfan=rng.choice([3, 6, 8]), nleaf=rng.choice([5, 8]), p_leaf=0.55)
+    o.p_subclass = 0.08          # now and then every leaf is an instance of a subclass of puan.variable
     o.__dict__.update(kw)
     return o
 
@@ -121,3 +126,40 @@ def with_twins(rng, case, p=0.3):
 
 def recipes_of(case):
     return [case["recipe"]] + list(case.get("twins", []))
+
+
+def sprinkle_cc(rec, rng):
+    """turn some Any / Xor nodes over leaves into the configurator's subclasses (same truth function). A default is only given where no
+    alternative can be negative: the default is split off as Any(d, Any(rest)), which equals Any(d, *rest) only then"""
+    from .. import refmodel as _r
+    for n in _r.recipe_nodes(rec):
+        if n["k"] in ("Any", "Xor") and len(n["args"]) >= 2 and all(a["k"] in ("var", "str") for a in n["args"]) and rng.random() < 0.6:
+            n["k"] = "ccAny" if n["k"] == "Any" else "ccXor"
+            if rng.random() < 0.85 and all(a.get("b", (0, 1))[0] >= 0 for a in n["args"]):
+                n["default"] = [rng.choice(n["args"])["id"]]
+    return rec
+
+
+def cc_case(rng):
+    """an option group of the configurator (3-5 alternatives, usually with a default) used as an ordinary proposition inside a small model"""
+    ids = rng.sample("abcdefgh", rng.randint(3, 5))
+    neg = rng.random() < 0.3
+    args = [{"k": "var", "id": i, "b": [0, 1]} for i in ids]
+    if neg:
+        args[rng.randrange(len(args))]["b"] = list(rng.choice([(-1, 1), (-2, 0), (-1, 0)]))     # an alternative that can be negative: no default then
+    grp = {"k": rng.choice(["ccXor", "ccXor", "ccAny"]), "id": rng.choice([None, "G"]), "args": args}
+    if not neg and rng.random() < 0.85:
+        grp["default"] = [rng.choice(ids)]
+    other = {"k": "var", "id": rng.choice("xyz"), "b": list(rng.choice([(0, 1), (0, 1), (-1, 2)]))}
+    w = rng.choice(["bare", "Not", "ImplyC", "ImplyQ", "All", "Any", "AtLeast"])
+    if w == "bare":
+        return grp
+    if w == "Not":
+        return {"k": "Not", "id": None, "args": [grp]}
+    if w == "ImplyC":
+        return {"k": "Imply", "id": rng.choice([None, "I"]), "args": [grp, other]}
+    if w == "ImplyQ":
+        return {"k": "Imply", "id": rng.choice([None, "I"]), "args": [{"k": "All", "id": None, "args": [other]}, grp]}
+    if w == "AtLeast":
+        return {"k": "AtLeast", "id": rng.choice([None, "T"]), "args": [grp, other], "value": rng.choice([1, 2]), "sign": 1}
+    return {"k": w, "id": rng.choice([None, "T"]), "args": [grp, other]}
